@@ -148,18 +148,18 @@ func C01(tier rt.Tier) int {
 	var runs []alphabet
 	if tier == rt.Quick {
 		runs = []alphabet{
-			{name: "mem-fixed", kind: Mem, paths: p2, vals: []string{"x", "y"}, emptyOn: []string{"", "ab", "abba"}, oversize: true, depth: 3, version: 1},
+			{name: "mem-fixed", kind: Mem, paths: p2, vals: []string{"x", "y:\x00:z"}, emptyOn: []string{"", "ab", "abba"}, oversize: true, depth: 3, version: 1},
 			{name: "level-mem", kind: LevelMem, paths: Paths("ab", 4)[:13], vals: []string{"x"}, flush: true, depth: 4, version: 1},
 			{name: "level-pnodedb", kind: LevelP, paths: Paths("ab", 4)[:13], vals: []string{"x"}, flush: true, depth: 4, version: 1},
-			{name: "mem-versions", kind: Mem, paths: Paths("ab", 4)[:9], vals: []string{"x", "y"}, bump: 2, depth: 4, version: 0},
+			{name: "mem-versions", kind: Mem, paths: Paths("ab", 4)[:9], vals: []string{"x", "y:\x00:z"}, bump: 2, depth: 4, version: 0},
 		}
 	} else {
 		runs = []alphabet{
-			{name: "mem-fixed", kind: Mem, paths: p2, vals: []string{"x", "y"}, emptyOn: p2, oversize: true, depth: 5, version: 1},
-			{name: "mem-3symbols", kind: Mem, paths: Paths("0af", 4), vals: []string{"x", "y"}, oversize: true, depth: 4, version: 1},
-			{name: "level-mem", kind: LevelMem, paths: p2, vals: []string{"x", "y"}, flush: true, depth: 5, version: 1},
-			{name: "level-pnodedb", kind: LevelP, paths: p2, vals: []string{"x", "y"}, flush: true, depth: 5, version: 1},
-			{name: "mem-versions", kind: Mem, paths: p2, vals: []string{"x", "y"}, bump: 3, depth: 5, version: -1},
+			{name: "mem-fixed", kind: Mem, paths: p2, vals: []string{"x", "y:\x00:z"}, emptyOn: p2, oversize: true, depth: 5, version: 1},
+			{name: "mem-3symbols", kind: Mem, paths: Paths("0af", 4), vals: []string{"x", "y:\x00:z"}, oversize: true, depth: 4, version: 1},
+			{name: "level-mem", kind: LevelMem, paths: p2, vals: []string{"x", "y:\x00:z"}, flush: true, depth: 5, version: 1},
+			{name: "level-pnodedb", kind: LevelP, paths: p2, vals: []string{"x", "y:\x00:z"}, flush: true, depth: 5, version: 1},
+			{name: "mem-versions", kind: Mem, paths: p2, vals: []string{"x", "y:\x00:z"}, bump: 3, depth: 5, version: -1},
 		}
 	}
 	per := 25 * time.Second
